@@ -1515,7 +1515,7 @@ class System:
             return None
         names, typ, phase = [], [], []
         rs, ii, pwr = [], [], []
-        domain, dname = [], "none"
+        domain, ndom = [], {}
         phase_names = list(self._g.attrs["phases"].keys())
         self._set_phase_lkup()
         src_cnt = 0
@@ -1524,6 +1524,10 @@ class System:
             if tname == "SOURCE":
                 dname = self._g[n]._params["name"]
                 src_cnt += 1
+            else:
+                # domain of the (first) parent, independent of the node order
+                dname = ndom[self._parents[n][0]]
+            ndom[n] = dname
             ph_names = []
             if tname == "SLOSS":
                 ph_names += ["N/A"]
